@@ -320,3 +320,64 @@ Proof.
   exists w, parts. split; [exact Hp|]. split; [exact Hw|].
   intros Hr x Hx. exact (path_profile_is_min net tp parts (tw_path w) x Hp Hr Hx).
 Qed.
+
+(* ---------------------------------------------------------------- never reverses (since the /repo fix of the
+   "sufficient power to move" guard): whole step, whole run, dispatched train *)
+Theorem sl_full_step_never_reverses (e : Env (F:=R)) pts fmax (x x' : SLStateR * ConsistR) :
+  Forall pt_ok pts -> sl_full_step e pts fmax x = Ok x' ->
+  0 < k_dt (ts_k (sl_st (fst x))) -> 0 < mass_compound (ts_p (sl_st (fst x))) ->
+  0 <= k_speed (ts_k (sl_st (fst x))) -> 0 <= k_speed (ts_k (sl_st (fst x'))).
+Proof.
+  destruct x as [s c], x' as [s'' c']. cbn [fst]. intros Hpts H Hdt Hm Hv.
+  destruct (sl_full_step_limit_target _ _ _ _ _ _ _ Hpts H) as ((Htg & _) & _).
+  destruct (sl_full_step_speed_le_target _ _ _ _ _ _ _ H Hdt Hm) as (c2 & ax & _ & (s' & Hs & Hb) & _).
+  subst s''. change (k_speed (ts_k (sl_st (sl_bump s')))) with (k_speed (ts_k (sl_st s'))).
+  change (k_speed_target (ts_k (sl_st (sl_bump s')))) with (k_speed_target (ts_k (sl_st s'))) in Htg.
+  exact (proj1 (step_never_reverses _ _ _ _ _ _ Hs Hdt Hm Hv Htg)).
+Qed.
+
+Definition NRInv (dt0 : R) (p0 : Par (F:=R)) (x : SLStateR * ConsistR) : Prop :=
+  k_dt (ts_k (sl_st (fst x))) = dt0 /\ ts_p (sl_st (fst x)) = p0 /\ 0 <= k_speed (ts_k (sl_st (fst x))).
+
+Lemma NRInv_step dt0 p0 (e : Env (F:=R)) pts fmax x x1 : 0 < dt0 -> 0 < mass_compound p0 -> Forall pt_ok pts ->
+  NRInv dt0 p0 x -> sl_full_step e pts fmax x = Ok x1 -> NRInv dt0 p0 x1.
+Proof.
+  intros Hdt Hm Hpts (Hd & Hp & Hv) Hs. destruct x as [s c], x1 as [s1 c1]. unfold NRInv. cbn [fst] in *.
+  pose proof (sl_full_run_clock e pts fmax 1 (s, c) (s1, c1)) as Hc. cbn [sl_full_run bind] in Hc.
+  rewrite Hs in Hc. cbn [bind] in Hc. specialize (Hc eq_refl). cbv zeta in Hc. cbn [fst] in Hc.
+  destruct Hc as (Hd1 & _ & _ & _ & Hp1).
+  split; [rewrite Hd1; exact Hd|]. split; [rewrite Hp1; exact Hp|].
+  apply (sl_full_step_never_reverses e pts fmax (s, c) (s1, c1) Hpts Hs); cbn [fst]; [rewrite Hd; exact Hdt|rewrite Hp; exact Hm|exact Hv].
+Qed.
+
+Theorem sl_full_run_never_reverses (e : Env (F:=R)) pts fmax : Forall pt_ok pts -> forall k x y,
+  0 < k_dt (ts_k (sl_st (fst x))) -> 0 < mass_compound (ts_p (sl_st (fst x))) -> 0 <= k_speed (ts_k (sl_st (fst x))) ->
+  sl_full_run k e pts fmax x = Ok y -> 0 <= k_speed (ts_k (sl_st (fst y))).
+Proof.
+  intros Hpts k. induction k as [|k IH]; intros x y Hdt Hm Hv Hy; cbn [sl_full_run] in Hy.
+  - inversion Hy; subst; exact Hv.
+  - apply bind_ok in Hy. destruct Hy as (x1 & Hs & Hr).
+    destruct (NRInv_step _ _ e pts fmax x x1 Hdt Hm Hpts (conj eq_refl (conj eq_refl Hv)) Hs) as (Hd1 & Hp1 & Hv1).
+    apply (IH x1 y); [rewrite Hd1; exact Hdt|rewrite Hp1; exact Hm|exact Hv1|exact Hr].
+Qed.
+
+(* a dispatched train never reverses: every state on the trace of walk_timed_path has a non-negative speed *)
+Definition nonneg_step (x x1 : SLStateR * ConsistR) : Prop := 0 <= k_speed (ts_k (sl_st (fst x1))).
+
+Theorem sl_timed_walk_never_reverses fuel_bp fuel_steps (net : list LinkR) (tp : TPR) tl rp fmax fb st cache (con : ConsistR) x' :
+  sl_timed_walk fuel_bp fuel_steps net tp tl rp fmax fb st cache con = Ok x' ->
+  0 < k_dt (ts_k st) -> 0 < mass_compound (ts_p st) -> 0 <= k_speed (ts_k st) ->
+  tw_trace fmax (Forall pt_ok) nonneg_step ({| sl_st := st; sl_cache := cache; sl_fb := fb; sl_idx := 0 |}, con) x' /\
+  0 <= k_speed (ts_k (sl_st (fst x'))).
+Proof.
+  intros H Hdt Hm Hv.
+  pose proof (sl_timed_walk_limits _ _ _ _ _ _ _ _ _ _ _ _ H (Rlt_le _ _ Hdt) Hm) as T0.
+  assert (T : tw_trace fmax (Forall pt_ok) any_step ({| sl_st := st; sl_cache := cache; sl_fb := fb; sl_idx := 0 |}, con) x').
+  { clear -T0. induction T0; [apply tt_refl|eapply tt_step; eauto; exact I|eapply tt_rebrake; eauto]. }
+  destruct (tw_trace_lift fmax (Forall pt_ok) (NRInv (k_dt (ts_k st)) (ts_p st)) nonneg_step) with (3 := T) as ((_ & _ & A) & T').
+  - intros e pts x x1 HP Hi Hs. pose proof (NRInv_step _ _ e pts fmax x x1 Hdt Hm HP Hi Hs) as Hi1.
+    split; [exact Hi1|]. exact (proj2 (proj2 Hi1)).
+  - intros x x1 (Hd & Hp & Hv0) (_ & Hst & _). unfold NRInv. rewrite Hst. repeat split; assumption.
+  - unfold NRInv. cbn [fst sl_st]. repeat split; [exact Hv].
+  - split; [exact T'|exact A].
+Qed.
